@@ -22,16 +22,25 @@ import (
 // domain is left.
 
 type cliCase struct {
-	Cmd      string  `json:"cmd"`
-	Ali      gen.Ali `json:"ali"`
-	Alphabet string  `json:"alphabet_flag"` // "", "nt", "aa"
-	Seed     int64   `json:"seed"`
-	A        float64 `json:"a"`
-	B        float64 `json:"b"`
-	N        int     `json:"n"`
-	K        int     `json:"k"` // number of samples / replicates
-	Flag     bool    `json:"flag"`
-	Counts   []cnt   `json:"counts,omitempty"`
+	Cmd      string   `json:"cmd"`
+	Ali      gen.Ali  `json:"ali"`
+	Alphabet string   `json:"alphabet_flag"` // "", "nt", "aa"
+	Seed     int64    `json:"seed"`
+	A        float64  `json:"a"`
+	B        float64  `json:"b"`
+	N        int      `json:"n"`
+	K        int      `json:"k"` // number of samples / replicates
+	Flag     bool     `json:"flag"`
+	Counts   []cnt    `json:"counts,omitempty"`
+	T        int      `json:"threads"` // 0: -t is not given; otherwise two more runs with -t T
+	Big      *bigSpec `json:"big,omitempty"`
+}
+
+func (c cliCase) expand() cliCase {
+	if c.Big != nil {
+		c.Ali = gen.Ali{Alphabet: "aa", Rows: bigRows(c.Big.Rows, c.Big.Len)}
+	}
+	return c
 }
 
 var cliCmds = []string{
@@ -41,7 +50,25 @@ var cliCmds = []string{
 
 func ff(x float64) string { return strconv.FormatFloat(x, 'g', -1, 64) }
 
+// genBigBoot: bootstrap replicates of a long alignment, many of them, several threads: the
+// replicates must not depend on how the work is scheduled
+func genBigBoot(t *rapid.T) cliCase {
+	var c cliCase
+	c.Cmd = "build seqboot"
+	c.Seed = genSeed(t)
+	c.Alphabet = "aa"
+	c.Big = &bigSpec{Rows: 3, Len: rapid.IntRange(1500, 3000).Draw(t, "L")}
+	c.A = rapid.SampledFrom([]float64{1, 0.5, 1}).Draw(t, "frac")
+	c.K = rapid.IntRange(6, 16).Draw(t, "nboot")
+	c.T = rapid.SampledFrom([]int{2, 4, 16}).Draw(t, "threads")
+	c.Flag = rapid.IntRange(0, 3).Draw(t, "shuforder") == 0
+	return c
+}
+
 func genCLI(t *rapid.T) cliCase {
+	if rapid.IntRange(0, 39).Draw(t, "bigboot") == 0 {
+		return genBigBoot(t)
+	}
 	var c cliCase
 	c.Cmd = cliCmds[rapid.IntRange(0, 1<<20).Draw(t, "cmd")%len(cliCmds)]
 	c.Seed = genSeed(t)
@@ -79,6 +106,10 @@ func genCLI(t *rapid.T) cliCase {
 		if !found {
 			c.Alphabet = "aa"
 		}
+	}
+	// the global --threads flag: every randomised command is also run with several threads
+	if rapid.IntRange(0, 2).Draw(t, "with_threads") == 0 {
+		c.T = rapid.SampledFrom([]int{2, 4, 16}).Draw(t, "threads")
 	}
 	switch c.Cmd {
 	case "shuffle seqs":
@@ -136,6 +167,9 @@ func genCLI(t *rapid.T) cliCase {
 	case "build seqboot":
 		c.A = genRate(t, "frac", 1, l, false)
 		c.K = rapid.IntRange(1, 3).Draw(t, "nboot")
+		if c.T > 0 {
+			c.K = rapid.IntRange(2, 8).Draw(t, "nboot_threads")
+		}
 		c.Flag = rapid.Bool().Draw(t, "shuforder")
 	}
 	return c
@@ -146,7 +180,7 @@ type cliRun struct {
 	files map[string]string // output files (base name -> content)
 }
 
-func runCLI(dir string, c cliCase) (cliRun, []string) {
+func runCLI(dir string, c cliCase, threads int) (cliRun, []string) {
 	work, err := os.MkdirTemp(dir, "run")
 	if err != nil {
 		panic(err)
@@ -157,6 +191,9 @@ func runCLI(dir string, c cliCase) (cliRun, []string) {
 	args := append(words, "-i", in, "--seed="+strconv.FormatInt(c.Seed, 10))
 	if c.Alphabet != "" {
 		args = append(args, "--alphabet", c.Alphabet)
+	}
+	if threads > 0 {
+		args = append(args, "-t", strconv.Itoa(threads))
 	}
 	switch c.Cmd {
 	case "shuffle seqs":
@@ -261,11 +298,15 @@ func sortByName(rows []gen.Row, like []gen.Row) ([]gen.Row, bool) {
 
 func checkCLI(dir string) func(c cliCase) (pbt.Outcome, error) {
 	return func(c cliCase) (o pbt.Outcome, err error) {
+		c = c.expand()
 		orig := c.Ali.Rows
 		n, l := len(orig), c.Ali.Length()
-		r1, args := runCLI(dir, c)
-		r2, _ := runCLI(dir, c)
+		r1, args := runCLI(dir, c, 0)
+		r2, _ := runCLI(dir, c, 0)
 		o.Class("cmd=%s", c.Cmd)
+		if c.Big != nil {
+			o.Class("seqboot: long alignment, many replicates, threads")
+		}
 		o.Class(seedClass(c.Seed))
 		if r1.res.TimedOut || r2.res.TimedOut {
 			return o, fmt.Errorf("goalign %v did not return", args)
@@ -280,6 +321,18 @@ func checkCLI(dir string) func(c cliCase) (pbt.Outcome, error) {
 		for k, v := range r1.files {
 			if r2.files[k] != v {
 				return o, fmt.Errorf("goalign %v run twice with the same seed: file %s differs\n first : %q\n second: %q", args, k, v, r2.files[k])
+			}
+		}
+		// several threads: the same bytes again, and the same as with one thread
+		if c.T > 0 {
+			o.Class("threads=%d", c.T)
+			t1, targs := runCLI(dir, c, c.T)
+			t2, _ := runCLI(dir, c, c.T)
+			if d := sameRun(t1, t2); d != "" {
+				return o, fmt.Errorf("goalign %v run twice with the same seed and -t %d: %s", targs, c.T, d)
+			}
+			if d := sameRun(r1, t1); d != "" {
+				return o, fmt.Errorf("goalign %v: the result with -t %d differs from the result without -t (same seed): %s", targs, c.T, d)
 			}
 		}
 		// exit status
@@ -424,7 +477,7 @@ func checkCLI(dir string) func(c cliCase) (pbt.Outcome, error) {
 		}
 		o.Ambiguous += amb
 		if err != nil {
-			return o, fmt.Errorf("goalign %v\n input : %s\n output: %s\n%v", args, gen.Show(orig), trunc(r1.res.Stdout, 600), err)
+			return o, fmt.Errorf("goalign %v\n input : %s\n output: %s\n%v", args, show(orig), trunc(r1.res.Stdout, 600), err)
 		}
 		changed = !gen.SameRows(orig, got)
 		if changed {
@@ -438,6 +491,25 @@ func checkCLI(dir string) func(c cliCase) (pbt.Outcome, error) {
 		o.NonTrivial = (changed || drew) && n >= 2 && l >= 2
 		return o, nil
 	}
+}
+
+// sameRun compares two executions byte for byte (exit status, standard output, output files)
+func sameRun(a, b cliRun) string {
+	if a.res.Exit != b.res.Exit {
+		return fmt.Sprintf("exit status %d / %d", a.res.Exit, b.res.Exit)
+	}
+	if a.res.Stdout != b.res.Stdout {
+		return fmt.Sprintf("standard output differs\n first : %q\n second: %q", trunc(a.res.Stdout, 500), trunc(b.res.Stdout, 500))
+	}
+	if len(a.files) != len(b.files) {
+		return fmt.Sprintf("%d / %d output files", len(a.files), len(b.files))
+	}
+	for _, k := range keysOf(a.files) {
+		if b.files[k] != a.files[k] {
+			return fmt.Sprintf("file %s differs\n first : %q\n second: %q", k, trunc(a.files[k], 500), trunc(b.files[k], 500))
+		}
+	}
+	return ""
 }
 
 func keysOf(m map[string]string) []string {
